@@ -1,7 +1,7 @@
 """C01 — injected arguments: caller's values over scope-layered bindings."""
 import gen_gin as G
 import gindom
-from gindom import run_impl, to_driver, compare  # noqa: F401
+from gindom import to_driver  # noqa: F401
 
 ID = 'C01'
 DOMAIN = 'gin/call'
@@ -59,7 +59,71 @@ def gen_case(rng):
   return {'dom': 'gin', 'ops': ops}
 
 
+# a method registered on its own (`@gin.register` inside the class body) whose class is registered afterwards: the
+# method moves under its class's name; calls through the registry — also through a wrapper obtained, or already
+# called, before the class was registered — receive what is bound under `Class.method` — a finite table on the real
+# code (the mirror has no calls of methods that change their name)
+METHOD_ORDER_CASES = [{'dom': 'gin', '_kind': 'method_order', 'scope': sc, 'early_call': ec, 'api': api, 'bind_first': bf, 'ops': []}
+                      for sc in ('', 'a', 'a/b') for ec in (False, True) for api in ('register', 'external')
+                      for bf in (False, True)]
+
+
+def run_method_order_case(case):
+  import contextlib
+  import core
+  gin = core.fresh_gin()
+  g = {'gin': gin, '__name__': 'mo'}
+  exec('class Model:\n  def __init__(self, width=1):\n    self.width = width\n'  # pylint: disable=exec-used
+       '  @gin.register\n  def fit(self, lr=0.1, steps=1):\n    return (self.width, lr, steps)\n', g)
+  model_cls = g['Model']
+  facts = {}
+  try:
+    early = gin.get_configurable(model_cls.fit)     # the wrapper of the still free-standing function
+    if case['early_call']:
+      facts['early'] = list(early(model_cls()))
+    if case['api'] == 'register':
+      gin.register(model_cls)
+    else:
+      gin.external_configurable(model_cls)
+    pre = case['scope'] + '/' if case['scope'] else ''
+
+    def binds():
+      gin.bind_parameter(pre + 'Model.fit.steps', 7)
+      gin.bind_parameter('mo.Model.fit.lr', 0.3)
+      gin.bind_parameter(pre + 'Model.width', 4)
+    if case['bind_first']:
+      binds()
+    late = gin.get_configurable(model_cls.fit)
+    if not case['bind_first']:
+      binds()
+    with contextlib.ExitStack() as st:
+      if case['scope']:
+        st.enter_context(gin.config_scope(case['scope']))
+      facts['through_class'] = list(gin.get_configurable(model_cls)().fit())
+      facts['early_wrapper'] = list(early(model_cls()))
+      facts['late_wrapper'] = list(late(model_cls()))
+    facts['outside_scope'] = list(late(model_cls()))
+  except Exception as e:  # pylint: disable=broad-except
+    facts['error'] = f'{type(e).__name__}: {e}'[:300]
+  facts['want'] = {'early': [1, 0.1, 1], 'through_class': [4, 0.3, 7], 'early_wrapper': [1, 0.3, 7], 'late_wrapper': [1, 0.3, 7],
+                   'outside_scope': [1, 0.3, 7 if not case['scope'] else 1]}
+  return {'out': [], 'facts': facts}
+
+
+def run_impl(case):
+  if case.get('_kind') == 'method_order':
+    return run_method_order_case(case)
+  return gindom.run_impl(case)
+
+
+def compare(case, impl, model):
+  if case.get('_kind') == 'method_order':
+    return None
+  return gindom.compare(case, impl, model)
+
+
 def gen_cases(rng, tier, boost=1):
+  yield from METHOD_ORDER_CASES
   n = (1500 if tier == 'quick' else 40000) * boost
   for _ in range(n):
     yield gen_case(rng)
@@ -74,6 +138,16 @@ def _overlay(binds, sel, scope):
 
 def oracle(case, impl):
   """C01 stated directly: caller's values pass through, longest applicable prefix wins, nothing else."""
+  if case.get('_kind') == 'method_order':
+    f = impl['facts']
+    if 'error' in f:
+      return f'method registered before its class ({case}): {f["error"]}'
+    for k, want in f['want'].items():
+      if k in f and f[k] != want:
+        return (f'method registered before its class (scope {case["scope"]!r}, called before the class was registered: '
+                f'{case["early_call"]}, bound before the wrapper was fetched: {case["bind_first"]}): {k} received {f[k]}, '
+                f'the bindings under Model / Model.fit imply {want}')
+    return None
   regs, binds = {}, {}
   for k, (op, res) in enumerate(zip(case['ops'], impl['out'])):
     if op['op'] == 'register' and 'ok' in res:
@@ -126,6 +200,8 @@ def oracle(case, impl):
 
 
 def nontrivial(case, impl):
+  if case.get('_kind') == 'method_order':
+    return True
   binds = {}
   for op, res in zip(case['ops'], impl['out']):
     if op['op'] == 'bind' and 'ok' in res:
@@ -139,6 +215,9 @@ def nontrivial(case, impl):
 
 
 def tally(stats, case, impl):
+  if case.get('_kind') == 'method_order':
+    stats['method_order_cases'] = stats.get('method_order_cases', 0) + 1
+    return
   for op, res in zip(case['ops'], impl['out']):
     k = op['op'] + ':' + ('ok' if 'ok' in res else res['err'])
     stats[k] = stats.get(k, 0) + 1
@@ -151,6 +230,8 @@ def tally(stats, case, impl):
 
 
 def shrink(case):
+  if case.get('_kind') == 'method_order':
+    return
   ops = case['ops']
   for k in range(len(ops) - 1, -1, -1):
     if ops[k]['op'] == 'register':
